@@ -105,14 +105,17 @@ class Ctx:
             s.bad(rule, key, what_bad, **kw)
         return cond
 
-    def floor(s, rule, what, n, floor):
-        """instance-count floor (fail closed)"""
+    def floor(s, rule, what, n, floor, inventory=False):
+        """instance-count floor (fail closed). `floor` is the number counted on the pinned tree. For mechanism
+        anchors (every instance is needed) the floor is exact; for inventories of dangerous constructs, where fewer
+        sites are harmless, the check only guards against a vacuous matcher (75% of the counted number)."""
         if s.only:
             return
-        s.info.setdefault("floors", {})["%s %s" % (rule, what)] = dict(count=n, floor=floor)
-        if n < floor:
-            s.bad(rule, "floor:" + what, "instance count %d fell below the floor %d counted on the pinned tree "
-                                         "(anchor-missing: the rule would pass vacuously)" % (n, floor))
+        need = max(1, (floor * 3) // 4) if inventory else floor
+        s.info.setdefault("floors", {})["%s %s" % (rule, what)] = dict(count=n, counted_on_pinned_tree=floor, required=need)
+        if n < need:
+            s.bad(rule, "floor:" + what, "instance count %d fell below the floor %d (counted on the pinned tree: %d) "
+                                         "(anchor-missing: the rule would pass vacuously)" % (n, need, floor))
 
     def note(s, text):
         s.notes.append(text)
